@@ -100,9 +100,12 @@ def engine_cases(chk):
                     cases.append({"fam": "engine", "obligations": obs, "ctx": ctx, "shape": shape, "cached": cached,
                                   "checker": "builtin"})
     for verdict in ([False, None], [False, "mfa"], [True, None], [0, "x"], [1, None], ["raise"]):
-        for flavour in ("sync", "async"):
-            cases.append({"fam": "engine_custom", "obligations": [{"type": "anything"}], "ctx": {}, "shape": "single",
-                          "cached": False, "checker": flavour, "verdict": verdict})
+        # a checker "synchronous or asynchronous": every way a check() can hand back its verdict now or later
+        for flavour in ("sync", "async", "def-returning-coroutine", "def-returning-future", "decorated-async",
+                        "async-callable-object", "partial-async"):
+            for cached in (False, True):
+                cases.append({"fam": "engine_custom", "obligations": [{"type": "anything"}], "ctx": {}, "shape": "single",
+                              "cached": cached, "checker": flavour, "verdict": verdict})
     return cases
 
 
@@ -137,7 +140,47 @@ def run_engine(cases):
                             raise RuntimeError("checker down")
                         return v[0], v[1]
 
-                kw["obligation_checker"] = Sync() if c["checker"] == "sync" else Async()
+                import functools
+
+                async def _averdict(raw, context):
+                    await asyncio.sleep(0)
+                    if v == ["raise"]:
+                        raise RuntimeError("checker down")
+                    return v[0], v[1]
+
+                class DefCoroutine:               # plain def delegating to an async implementation
+                    def check(self, raw, context):
+                        return _averdict(raw, context)
+
+                class DefFuture:                  # plain def returning a Future (e.g. work scheduled elsewhere)
+                    def check(self, raw, context):
+                        return asyncio.ensure_future(_averdict(raw, context))
+
+                def _logged(fn):                  # a decorator that is not async-aware
+                    @functools.wraps(fn)
+                    def wrapper(*a, **k):
+                        return fn(*a, **k)
+                    return wrapper
+
+                class Decorated:
+                    @_logged
+                    async def check(self, raw, context):
+                        return await _averdict(raw, context)
+
+                class _Call:
+                    async def __call__(self, raw, context):
+                        return await _averdict(raw, context)
+
+                class CallableObject:
+                    check = _Call()
+
+                class PartialAsync:
+                    def __init__(self):
+                        self.check = functools.partial(_averdict)
+
+                kw["obligation_checker"] = {"sync": Sync, "async": Async, "def-returning-coroutine": DefCoroutine,
+                                            "def-returning-future": DefFuture, "decorated-async": Decorated,
+                                            "async-callable-object": CallableObject, "partial-async": PartialAsync}[c["checker"]]()
             if c["cached"]:
                 kw["cache"] = DefaultInMemoryCache(16)
             g = Guard(pol, **kw)
